@@ -195,13 +195,21 @@ def check_text_union(prog, rep):
 
 
 def _same_line_pos(a, b):
-    """Both triples are (payload-of-lines().next .0, .1, self.text_style.baseline): compare after
-    erasing call-site tags and the iterator state they were pulled from."""
-    def norm(t):
-        s = show(t, maxd=40)
-        import re
-        return re.sub(r"@bb\d+", "", s)
-    return [norm(x) for x in a] == [norm(x) for x in b]
+    """Both triples are (item.0, item.1, self.text_style.baseline) where item is the payload of
+    `next()` on an iterator obtained from self.lines()."""
+    def shape(t3):
+        out = []
+        for k, t in enumerate(t3[:2]):
+            m = match(t, ("field", ("field", ("variant", ("call", "*::next", "_", ("?it",)), "Some"), 0), k))
+            if m is None:
+                return None
+            if not any(n[0] == "call" and n[1].endswith("::lines") and n[3] == (("param", 1, "self"),) for n in walk(m["?it"])):
+                return None
+            out.append(k)
+        out.append(t3[2])
+        return out
+    sa, sb = shape(a), shape(b)
+    return sa is not None and sa == sb
 
 
 def check_thick_segment(prog, rep):
